@@ -305,3 +305,12 @@ package log
 //@   trusted "constructor: assumed to build a cyclic list of size distinct ring nodes, i.e. to establish wf(q) with len 0 (not proved)"
 //@   requires size >= 1
 //@   ensures q != nil && fresh(q) && wf(q) && q.len == 0 && q.cap == size
+
+// the poll goroutine's write callback: a buffer that was handed to the export queue is never written again - after a
+// successful EnqueueExport the goroutine continues with a freshly allocated buffer of the same length
+//@ func (b *BatchProcessor) poll$1$1(r []Record) (ok bool)
+//@   prop C06
+//@   unchecked frame,no-panic the export queue is a channel
+//@   requires b != nil && b.exporter != nil
+//@   ensures ok && old(len(buf)) > 0 ==> fresh(buf) && len(buf) == old(len(buf))
+//@   ensures !ok ==> samearray(buf, old(buf)) && len(buf) == old(len(buf))
